@@ -246,27 +246,36 @@ func VerifCompile(fn *bigslice.FuncValue, machineCombiners bool, args ...interfa
 	return VerifDumpTasks(tasks, inv.Index), nil
 }
 
-// VerifCompileEncoded does the same after a gob round trip of the invocation (as a worker would).
-func VerifCompileEncoded(fn *bigslice.FuncValue, machineCombiners bool, args ...interface{}) (dump []string, err error) {
+// VerifCompileEncoded does the same after a gob round trip of the invocation, as a worker would: the driver compiles (marking
+// cached ops in the environment) and freezes its environment as Session.run does, and what is shipped is the copy of the
+// invocation that the compiled tasks carry (bigmachineExecutor.Run: addInvocation(task.Invocation)).  It also reports whether
+// the environment the worker compiles with may still be written (it must not: the worker would record its own view of the
+// cache files and compile another graph than the driver).
+func VerifCompileEncoded(fn *bigslice.FuncValue, machineCombiners bool, args ...interface{}) (dump []string, envWritable bool, err error) {
 	inv0 := makeExecInvocation(fn.Invocation("verif", args...))
-	// the driver compiles first (marking cached ops in the environment), then ships the frozen invocation
-	if _, err := compile(inv0, inv0.Invoke(), machineCombiners); err != nil {
-		return nil, err
+	tasks0, err := compile(inv0, inv0.Invoke(), machineCombiners)
+	if err != nil {
+		return nil, false, err
 	}
 	inv0.Env.Freeze()
+	shipped := inv0
+	if len(tasks0) > 0 {
+		shipped = tasks0[0].Invocation
+	}
 	var b bytes.Buffer
-	if err := gob.NewEncoder(&b).Encode(inv0); err != nil {
-		return nil, err
+	if err := gob.NewEncoder(&b).Encode(shipped); err != nil {
+		return nil, false, err
 	}
 	var inv execInvocation
 	if err := gob.NewDecoder(&b).Decode(&inv); err != nil {
-		return nil, err
+		return nil, false, err
 	}
+	envWritable = inv.Env.IsWritable()
 	tasks, err := compile(inv, inv.Invoke(), machineCombiners)
 	if err != nil {
-		return nil, err
+		return nil, envWritable, err
 	}
-	return VerifDumpTasks(tasks, inv.Index), nil
+	return VerifDumpTasks(tasks, inv.Index), envWritable, nil
 }
 
 func VerifResultTasks(r *Result) []*Task { return r.tasks }
